@@ -28,6 +28,7 @@ type C08Op struct {
 	Tmpl   int    `json:"tmpl,omitempty"` // template index / file index
 	Data   int    `json:"data,omitempty"` // data set index
 	Config int    `json:"config,omitempty"`
+	Via    int    `json:"via,omitempty"` // 1: through Tofu.Render instead of Renderer.Execute (when no injected data is involved)
 }
 
 type C08Case struct {
@@ -101,7 +102,8 @@ func genC08(t *rapid.T) C08Case {
 		}
 	}
 	for i, n := 0, rapid.IntRange(4, scale(25, 60)).Draw(t, "nops"); i < n; i++ {
-		op := C08Op{Op: rapid.SampledFrom([]string{"render", "render", "render", "renderMsgs", "js", "jsMsgs", "config"}).Draw(t, "op")}
+		op := C08Op{Op: rapid.SampledFrom([]string{"render", "render", "render", "renderMsgs", "js", "jsMsgs", "config", "renderFail"}).Draw(t, "op")}
+		op.Via = rapid.IntRange(0, 1).Draw(t, "via")
 		op.Tmpl = rapid.IntRange(0, 7).Draw(t, "tmpl")
 		op.Data = rapid.IntRange(0, 3).Draw(t, "data")
 		op.Config = rapid.IntRange(0, len(c08Configs)-1).Draw(t, "config")
@@ -164,6 +166,25 @@ func checkC08(c C08Case) Verdict {
 			config = op.Config
 			soyhtml.ObligatoryPrintDirectiveNames = append([]string{}, c08Configs[config]...)
 			return
+		case "renderFail":
+			// a render whose writer stops accepting bytes: its own result is C12's matter, here it is
+			// one more thing that may have happened before the renders that are compared
+			ti := op.Tmpl % len(fqs)
+			w := &faultWriter{failCall: -1, capacity: op.Config * 3, sticky: true}
+			catch(func() {
+				if op.Via == 1 {
+					cb.tofu.Render(w, fqs[ti], dataSets[ti])
+					return
+				}
+				rd := cb.tofu.NewRenderer(fqs[ti])
+				if c.Prog.HasIJ {
+					rd.Inject(ij)
+				}
+				rd.Execute(w, dataSets[ti])
+			})
+			k.tmpl, k.d = ti, -1-op.Config
+			result = "n/a"
+			delete(first, k)
 		case "render", "renderMsgs":
 			ti := op.Tmpl % len(fqs)
 			di := ti
@@ -174,6 +195,10 @@ func checkC08(c C08Case) Verdict {
 			var buf bytes.Buffer
 			var rerr error
 			p := catch(func() {
+				if op.Via == 1 && op.Op == "render" && !c.Prog.HasIJ {
+					rerr = cb.tofu.Render(&buf, fqs[ti], dataSets[di])
+					return
+				}
 				rd := cb.tofu.NewRenderer(fqs[ti])
 				if c.Prog.HasIJ {
 					rd.Inject(ij)
